@@ -5,7 +5,7 @@ import asyncio
 
 from hypothesis import strategies as st
 
-from harness import brokerops, scenario, vclock
+from harness import brokerops, names, scenario, vclock
 from harness.brokers import Env, Spy, reset_globals
 from harness.core import Check, Outcome, SubCheck
 
@@ -83,6 +83,12 @@ def holders_case(draw, broker):
             ops.append({"op": "consume", "c": 0, "patience": 0.6})
             ops.append({"op": "ack", "c": 0, "i": 0})
     case = {"broker": broker, "seed": draw(st.integers(0, 2**16)), "ops": ops}
+    if draw(st.integers(0, 3)) == 0:
+        names.rename_history(case, draw(st.sampled_from(names.STYLES)))  # legal but unusual queue / topic / message names
+    if draw(st.integers(0, 5)) == 0:
+        case["log"] = "DEBUG"  # host application logging at DEBUG: the library's log lines are all formatted
+    if draw(st.integers(0, 5)) == 0:
+        case["tz"] = draw(st.sampled_from(vclock.zones(10)))
     if broker != "mem":
         lat = st.lists(st.sampled_from([0.0, 0.001, 0.002, 0.005]), max_size=30)
         case["lat"] = {"p0": [], "c0": draw(lat), "c1": draw(lat), "c2": draw(lat)}
